@@ -215,7 +215,7 @@ def getitem(it, obj, idx, node):
         return seq_index(it, it.to_seq(obj), idx, node)
     if isinstance(obj, SV) and obj.kind == 'zstr':
         return zstr_index(it, obj, idx, node)
-    if isinstance(obj, SObj):
+    if isinstance(obj, (SObj, Sym)):
         h = getattr(obj, 'vc_getitem', None)
         if h is not None:
             return h(it, idx, node)
